@@ -37,8 +37,8 @@ m = dict(
                                  "extracted model) run implementation and model on the same cases; direct search oracles in the harness")],
     checks=checks,
     notes="See DESIGN.md. ./check <id> decides one property. Genuine defects repaired by unguarded 'fix:' commits in /repo (20) are "
-          "listed in /verif/known_findings.json under 'fixed'; recorded defects (KF1-KF18 without the repaired KF9, KF13 and KF15, 'findings') are reported as KNOWN-FINDING "
-          "lines and suppress nothing else. Seeded breaking changes used to test the checks are in /verif/seeded (57) and "
+          "listed in /verif/known_findings.json under 'fixed'; recorded defects (KF1-KF20 without the repaired KF9, KF13 and KF15, 'findings') are reported as KNOWN-FINDING "
+          "lines and suppress nothing else. Seeded breaking changes used to test the checks are in /verif/seeded (65) and "
           "behaviour-preserving refactorings in /verif/refactors (8); tools/run_seeded.py applies one, runs the checks and reverts.",
     not_applicable=na,
 )
